@@ -9,7 +9,7 @@ Import ListNotations.
 Open Scope Z_scope.
 
 (* what prop_ok reads of an observation to classify it *)
-Definition iobs_of (o : obs) : iobs := mkI (o_res o) (o_req o) (o_fb o) true 0 0 0 0 0 0 0 0 0 0 0 0.
+Definition iobs_of (o : obs) : iobs := mkI (o_res o) (o_req o) (o_fb o) true 0 0 0 0 0 0 0 0 0 0 0 0 0.
 
 (* "rejected iff the request did not run (Allow: iff it returned non-nil)" is exactly the
    model's verdict, for every entry point and every outcome - including the outcomes whose
